@@ -235,6 +235,11 @@ theorem tcons_tcpOpen (n : NetSt) (now : Int) (name : String) (v4 : Bool) :
 theorem ni_tcpOpen (n : NetSt) (now : Int) (name : String) (v4 : Bool) : noInvoke (n.tcpOpen now name v4).2 := by
   unfold NetSt.tcpOpen; dsimp only; split <;> exact ni_tcpClose _ _ _
 
+theorem ni_tcpOpen' {n n' : NetSt} {now : Int} {name : String} {v4 : Bool} {e : List NEff}
+    (h : n.tcpOpen now name v4 = (n', e)) : noInvoke e := by
+  have := ni_tcpOpen n now name v4
+  rw [h] at this; exact this
+
 theorem tcons_tcpBind (n : NetSt) (name : String) (ep : Ep) : TCons n (n.tcpBind name ep).1 [] [] := by
   unfold NetSt.tcpBind
   split
@@ -576,6 +581,468 @@ theorem ni_tcpConnect (n : NetSt) (now : Int) (name : String) (target : Ep) (h :
     · unfold tcpConnectFin
       splits <;> (try simp [hA, NEff.isInvoke]) <;>
         (rename_i hq; exact silent_noInvoke (silent_internalConnect' hq))
+
+/-! ### incoming packets -/
+
+theorem tcons_tcpIncoming (tp : TParams) (n : NetSt) (now : Int) (name : String) (p : Pkt) :
+    TCons n (n.tcpIncoming tp now name p).1 (n.tcpIncoming tp now name p).2 [] := by
+  unfold NetSt.tcpIncoming
+  split
+  · exact TCons.refl n
+  · rename_i s hs
+    split
+    · exact TCons.refl n
+    · exact TCons.refl n
+    · dsimp only
+      exact TCons.silent_of (TCons.setTcp_same_slots hs rfl rfl rfl rfl rfl) (by simp [NEff.isSilent])
+    · split
+      · exact TCons.refl n
+      · rename_i h hc
+        refine TCons.setTcp_present hs (fun hx => ⟨?_, hx⟩)
+        unfold TcpSock.slotIds TcpSock.acceptOp; dsimp only; rw [hc]
+        simp only [effIds, Option.toList_some, Option.toList_none]
+        perm_omega
+    · split
+      · exact TCons.refl n
+      · dsimp only
+        split
+        · exact TCons.silent_of (TCons.setTcp_same_slots hs rfl rfl rfl rfl rfl) (by simp [NEff.isSilent])
+        · dsimp only
+          refine TCons.setTcp_present hs (fun hx => ?_)
+          have := tcp_conserve_maybeWakeupReader tp
+            { s with nextIn := (drainReorder (s.reorder.length + 1) (s.nextIn + 1) s.reorder (s.inq ++ [p])).1,
+                     reorder := (drainReorder (s.reorder.length + 1) (s.nextIn + 1) s.reorder (s.inq ++ [p])).2.1,
+                     inq := (drainReorder (s.reorder.length + 1) (s.nextIn + 1) s.reorder (s.inq ++ [p])).2.2 } hx
+          refine ⟨?_, this.2⟩
+          simp only [List.singleton_append, effIds, List.append_nil]
+          exact this.1
+
+theorem ni_tcpIncoming (tp : TParams) (n : NetSt) (now : Int) (name : String) (p : Pkt) :
+    noInvoke (n.tcpIncoming tp now name p).2 := by
+  unfold NetSt.tcpIncoming
+  splits <;> simp [NEff.isInvoke, ni_tcp_maybeWakeupReader]
+
+/-- SYN-ACK: the connect handler is taken out of its slot in the step that posts it; with no
+    connect outstanding (cancelled meanwhile) nothing happens -/
+theorem tcpIncoming_synack (tp : TParams) (n : NetSt) (now : Int) (name : String) (p : Pkt) (s : TcpSock)
+    (hs : n.tcp? name = some s) (hp : p.ty = .synack) :
+    (∀ h, s.connectH = some h →
+        (n.tcpIncoming tp now name p).2 = [.post { h := h, ec := .ok }, .tcpWake name]
+        ∧ ∃ s', (n.tcpIncoming tp now name p).1.tcp? name = some s' ∧ s'.connectH = none)
+    ∧ (s.connectH = none → n.tcpIncoming tp now name p = (n, [])) := by
+  unfold NetSt.tcpIncoming
+  rw [hs]; dsimp only; rw [hp]; dsimp only
+  constructor
+  · intro h hc; rw [hc]; dsimp only
+    exact ⟨rfl, _, setTcp_tcp_same _ _ _, rfl⟩
+  · intro hc; rw [hc]
+
+/-! ### acceptor -/
+
+theorem tcons_accCancel (n : NetSt) (name : String) : TCons n (n.accCancel name).1 (n.accCancel name).2 [] := by
+  unfold NetSt.accCancel
+  split
+  · exact TCons.refl n
+  · rename_i s hs
+    dsimp only
+    refine TCons.setTcp_present hs (fun hx => ⟨by simpa using tcp_conserve_abortAccept s, ?_⟩)
+    obtain ⟨_, h1, h2, _⟩ := tcp_abortAccept_slots s
+    unfold TcpSock.recvExcl at *; rw [h1, h2]; exact hx
+
+theorem ni_accCancel (n : NetSt) (name : String) : noInvoke (n.accCancel name).2 := by
+  unfold NetSt.accCancel; split
+  · simp
+  · exact ni_tcp_abortAccept _
+
+theorem tcons_accListen (n : NetSt) (name : String) (qs : Int) : TCons n (n.accListen name qs).1 [] [] := by
+  unfold NetSt.accListen
+  split
+  · exact TCons.refl n
+  · rename_i s hs
+    splits <;> first
+      | exact TCons.refl n
+      | (rename_i a ha
+         exact TCons.setTcp_same_slots hs rfl rfl rfl rfl (by unfold TcpSock.acceptOp; simp [ha]))
+
+theorem tcons_tcpAttach (n : NetSt) (now : Int) (peer : String) (bindEp : Ep) (cid : Nat) :
+    TCons n (n.tcpAttach now peer bindEp cid).1 (n.tcpAttach now peer bindEp cid).2 [] := by
+  unfold NetSt.tcpAttach
+  split
+  · exact TCons.refl n
+  · rename_i p0 hp0
+    dsimp only
+    split
+    · rename_i p ch hp hch
+      refine ((tcons_tcpOpen n now peer p0.isV4).trans (n2 := _) (e2 := []) (new2 := []) ?_).congr (by simp) rfl
+      exact TCons.setTcp_then hp (TCons.of_tcps_eq rfl rfl) rfl rfl rfl rfl rfl
+    · exact tcons_tcpOpen n now peer p0.isV4
+
+theorem ni_tcpAttach (n : NetSt) (now : Int) (peer : String) (bindEp : Ep) (cid : Nat) :
+    noInvoke (n.tcpAttach now peer bindEp cid).2 := by
+  unfold NetSt.tcpAttach
+  split
+  · simp
+  · dsimp only
+    split <;> exact ni_tcpOpen _ _ _ _
+
+/-! ### check_accept_queue -/
+
+/-- first half of `check_accept_queue()`: a closed acceptor resets whatever is queued and aborts the accept -/
+def _root_.SimVerif.accResetClosed (n : NetSt) (name : String) (s0 : TcpSock) (a0 : AccState) : NetSt × List NEff :=
+  if !s0.isOpen then
+    let rsts := a0.conns.filterMap (fun c => (n.chan? c).map (fun ch =>
+      NEff.forward { id := 0, ty := .err, ec := .reset, len := 0, ovh := 28, hops := ch.hops0, src := s0.bound.toString }))
+    let s := { s0 with acc := some { a0 with conns := [] } }
+    let (s, ea) := s.abortAccept
+    (n.setTcp name s, rsts ++ ea)
+  else (n, [])
+
+/-- second half: hand the oldest queued connection to the outstanding accept -/
+def _root_.SimVerif.accTryAccept (n : NetSt) (now : Int) (name : String) : NetSt × List NEff :=
+  match n.tcp? name with
+  | none => (n, [])
+  | some s =>
+    match s.acc with
+    | none => (n, [])
+    | some a =>
+      match a.acceptOp, a.conns with
+      | none, _ => (n, [])
+      | _, [] => (n, [])
+      | some op, c :: rest =>
+        let n := n.setTcp name { s with acc := some { a with conns := rest, acceptOp := none } }
+        let peer := match op with | .into _ pn _ => pn | .fresh _ nn => nn
+        let vis := ((n.chan? c).map (·.vis0)).getD {}
+        let (n, e1) := n.tcpAttach now peer s.bound c
+        match n.chan? c with
+        | none => (n, e1)
+        | some ch =>
+          let synack : Pkt := { id := 0, ty := .synack, len := 0, ovh := 28, hops := ch.hops0,
+                                src := s.bound.toString, chan := some c }
+          let done := match op with
+            | .into h _ withEp => NEff.post { h := h, ec := .ok, extra := if withEp then "ep=" ++ vis.toString else "" }
+            | .fresh h _ => NEff.post { h := h, ec := .ok }
+          (n, e1 ++ [.forward synack, done])
+
+theorem accCheckQueue_eq (n : NetSt) (now : Int) (name : String) :
+    n.accCheckQueue now name = match n.tcp? name with
+      | none => (n, [])
+      | some s0 =>
+        match s0.acc with
+        | none => (n, [])
+        | some a0 =>
+          ((accTryAccept (accResetClosed n name s0 a0).1 now name).1,
+            (accResetClosed n name s0 a0).2 ++ (accTryAccept (accResetClosed n name s0 a0).1 now name).2) := by
+  unfold NetSt.accCheckQueue
+  cases hs0 : n.tcp? name with
+  | none => rfl
+  | some s0 =>
+    dsimp only
+    cases ha0 : s0.acc with
+    | none => rfl
+    | some a0 =>
+      dsimp only
+      have hfold : (if (!s0.isOpen) = true then
+            (n.setTcp name (TcpSock.abortAccept { s0 with acc := some { a0 with conns := [] } }).1,
+              a0.conns.filterMap (fun c => (n.chan? c).map (fun ch =>
+                NEff.forward { id := 0, ty := .err, ec := .reset, len := 0, ovh := 28, hops := ch.hops0,
+                               src := s0.bound.toString }))
+                ++ (TcpSock.abortAccept { s0 with acc := some { a0 with conns := [] } }).2)
+          else (n, [])) = accResetClosed n name s0 a0 := rfl
+      rw [hfold]
+      generalize accResetClosed n name s0 a0 = r
+      clear hfold
+      unfold accTryAccept
+      cases h1 : r.1.tcp? name with
+      | none => simp
+      | some s =>
+        dsimp only
+        cases h2 : s.acc with
+        | none => simp
+        | some a =>
+          dsimp only
+          cases h3 : a.acceptOp with
+          | none => simp
+          | some op =>
+            cases h4 : a.conns with
+            | nil => simp
+            | cons c rest =>
+              dsimp only
+              generalize NetSt.tcpAttach _ _ _ _ _ = x
+              cases h5 : x.1.chan? c <;> simp <;> (cases op <;> rfl)
+
+/-! #### channel ids stay valid -/
+
+theorem setChan_length (n : NetSt) (c : Nat) (ch : Chan) : (n.setChan c ch).chans.length = n.chans.length := by
+  simp [NetSt.setChan]
+
+theorem chanLen_tcpSendPacket (n : NetSt) (now : Int) (name : String) (p : Pkt) :
+    (n.tcpSendPacket now name p).1.chans.length = n.chans.length := by
+  unfold NetSt.tcpSendPacket
+  splits <;> simp [setChan_length]
+
+theorem chanLen_tcpClose (n : NetSt) (now : Int) (name : String) :
+    (n.tcpClose now name).1.chans.length = n.chans.length := by
+  rw [tcpClose_eq]
+  split
+  · rfl
+  · have h1 : ∀ s0, (tcpCloseEof n now name s0).1.chans.length = n.chans.length := by
+      intro s0; unfold tcpCloseEof
+      splits <;> simp [chanLen_tcpSendPacket]
+    have h2 : ∀ (m : NetSt) e0, (tcpCloseFin m name e0).1.chans.length = m.chans.length := by
+      intro m e0; unfold tcpCloseFin
+      splits <;> simp [NetSt.setFwd]
+    rw [h2, h1]
+
+theorem chanLen_tcpOpen (n : NetSt) (now : Int) (name : String) (v4 : Bool) :
+    (n.tcpOpen now name v4).1.chans.length = n.chans.length := by
+  unfold NetSt.tcpOpen
+  dsimp only
+  split <;> simp [chanLen_tcpClose, NetSt.newFwd]
+
+theorem chanLen_tcpAttach (n : NetSt) (now : Int) (peer : String) (bindEp : Ep) (cid : Nat) :
+    (n.tcpAttach now peer bindEp cid).1.chans.length = n.chans.length := by
+  unfold NetSt.tcpAttach
+  split
+  · rfl
+  · dsimp only
+    split <;> simp [chanLen_tcpOpen, setChan_length]
+
+theorem chan?_isSome_iff (n : NetSt) (c : Nat) : (n.chan? c).isSome ↔ c < n.chans.length := by
+  unfold NetSt.chan?; simp
+
+/-- the connections queued at acceptor `name` are valid channel ids (in the C++ the queue holds
+    `shared_ptr<channel>`: always valid) -/
+def _root_.SimVerif.AccConnsOk (n : NetSt) (name : String) : Prop :=
+  ∀ s a, n.tcp? name = some s → s.acc = some a → ∀ c ∈ a.conns, c < n.chans.length
+
+theorem silent_rsts (n : NetSt) (l : List Nat) (src : String) :
+    silent (l.filterMap (fun c => (n.chan? c).map (fun ch =>
+      NEff.forward { id := 0, ty := .err, ec := .reset, len := 0, ovh := 28, hops := ch.hops0, src := src }))) := by
+  induction l with
+  | nil => simp
+  | cons c rest ih =>
+    simp only [List.filterMap_cons]
+    cases n.chan? c <;> simp [ih, NEff.isSilent]
+
+theorem tcons_accResetClosed (n : NetSt) (name : String) (s0 : TcpSock) (a0 : AccState)
+    (hs : n.tcp? name = some s0) (ha : s0.acc = some a0) :
+    TCons n (accResetClosed n name s0 a0).1 (accResetClosed n name s0 a0).2 [] := by
+  unfold accResetClosed
+  split
+  · dsimp only
+    refine TCons.setTcp_present hs (fun hx => ⟨?_, ?_⟩)
+    · have h1 := tcp_conserve_abortAccept { s0 with acc := some { a0 with conns := [] } }
+      have h2 : ({ s0 with acc := some { a0 with conns := [] } } : TcpSock).slotIds = s0.slotIds :=
+        tcp_slotIds_congr rfl rfl rfl rfl (by unfold TcpSock.acceptOp; simp [ha])
+      rw [h2] at h1
+      rw [effIds_append, effIds_silent (silent_rsts n a0.conns s0.bound.toString)]
+      simpa using h1
+    · obtain ⟨_, h1, h2, _⟩ := tcp_abortAccept_slots { s0 with acc := some { a0 with conns := [] } }
+      unfold TcpSock.recvExcl at *; rw [h1, h2]; exact hx
+  · exact TCons.refl n
+
+theorem ni_accResetClosed (n : NetSt) (name : String) (s0 : TcpSock) (a0 : AccState) :
+    noInvoke (accResetClosed n name s0 a0).2 := by
+  unfold accResetClosed
+  split
+  · dsimp only
+    simp [silent_noInvoke (silent_rsts n a0.conns s0.bound.toString), ni_tcp_abortAccept]
+  · simp
+
+theorem tcons_accTryAccept (n : NetSt) (now : Int) (name : String) (hv : AccConnsOk n name) :
+    TCons n (accTryAccept n now name).1 (accTryAccept n now name).2 [] := by
+  unfold accTryAccept
+  cases hs : n.tcp? name with
+  | none => exact TCons.refl n
+  | some s =>
+    dsimp only
+    cases ha : s.acc with
+    | none => exact TCons.refl n
+    | some a =>
+      dsimp only
+      cases hop : a.acceptOp with
+      | none => exact TCons.refl n
+      | some op =>
+        cases hc : a.conns with
+        | nil => exact TCons.refl n
+        | cons c rest =>
+          dsimp only
+          have hcv : c < n.chans.length := hv s a hs ha c (by rw [hc]; exact List.mem_cons_self)
+          generalize hpeer : (match op with | AcceptOp.into _ pn _ => pn | AcceptOp.fresh _ nn => nn) = peer
+          have hlen := chanLen_tcpAttach
+            (n.setTcp name { s with acc := some { a with conns := rest, acceptOp := none } }) now peer s.bound c
+          have hat := tcons_tcpAttach
+            (n.setTcp name { s with acc := some { a with conns := rest, acceptOp := none } }) now peer s.bound c
+          generalize NetSt.tcpAttach _ now peer s.bound c = x at hlen hat ⊢
+          have hsome : (x.1.chan? c).isSome := by
+            rw [chan?_isSome_iff, hlen]; simpa using hcv
+          cases hch : x.1.chan? c with
+          | none => rw [hch] at hsome; cases hsome
+          | some ch =>
+            dsimp only
+            -- the accept handler leaves its slot and is posted
+            have h1 : TCons n (n.setTcp name { s with acc := some { a with conns := rest, acceptOp := none } })
+                [NEff.post { h := op.h, ec := .ok }] [] := by
+              refine TCons.setTcp_present hs (fun hx => ⟨?_, hx⟩)
+              unfold TcpSock.slotIds TcpSock.acceptOp; dsimp only; rw [ha]
+              simp only [Option.bind_some, hop, Option.map_some, Option.toList_some, Option.map_none,
+                Option.toList_none, effIds]
+              perm_omega
+            refine (h1.trans hat).congr_perm ?_ (by simp)
+            cases op <;> (simp only [effIds_append, effIds, AcceptOp.h]; perm_omega)
+
+theorem ni_accTryAccept (n : NetSt) (now : Int) (name : String) : noInvoke (accTryAccept n now name).2 := by
+  unfold accTryAccept
+  cases hs : n.tcp? name with
+  | none => simp
+  | some s =>
+    dsimp only
+    cases ha : s.acc with
+    | none => simp
+    | some a =>
+      dsimp only
+      cases hop : a.acceptOp with
+      | none => simp
+      | some op =>
+        cases hc : a.conns with
+        | nil => simp
+        | cons c rest =>
+          dsimp only
+          generalize hpeer : (match op with | AcceptOp.into _ pn _ => pn | AcceptOp.fresh _ nn => nn) = peer
+          have hat := ni_tcpAttach
+            (n.setTcp name { s with acc := some { a with conns := rest, acceptOp := none } }) now peer s.bound c
+          generalize NetSt.tcpAttach _ now peer s.bound c = x at hat ⊢
+          cases hch : x.1.chan? c with
+          | none => exact hat
+          | some ch =>
+            dsimp only
+            simp only [noInvoke_append, hat, true_and, noInvoke_cons, NEff.isInvoke, noInvoke_nil, and_true]
+            cases op <;> rfl
+
+theorem AccConnsOk.mono {n n' : NetSt} {name : String} (hv : AccConnsOk n name)
+    (h : ∀ s' a', n'.tcp? name = some s' → s'.acc = some a' →
+      ∃ s a, n.tcp? name = some s ∧ s.acc = some a ∧ ∀ c ∈ a'.conns, c ∈ a.conns)
+    (hl : n.chans.length ≤ n'.chans.length) : AccConnsOk n' name := by
+  intro s' a' hs' ha' c hc
+  obtain ⟨s, a, hs, ha, hsub⟩ := h s' a' hs' ha'
+  exact Nat.lt_of_lt_of_le (hv s a hs ha c (hsub c hc)) hl
+
+theorem accResetClosed_ok (n : NetSt) (name : String) (s0 : TcpSock) (a0 : AccState)
+    (hs : n.tcp? name = some s0) (ha : s0.acc = some a0) (hv : AccConnsOk n name) :
+    AccConnsOk (accResetClosed n name s0 a0).1 name := by
+  unfold accResetClosed
+  split
+  · dsimp only
+    intro s' a' hs' ha' c hc
+    rw [setTcp_tcp_same] at hs'
+    cases hs'
+    have := (tcp_abortAccept_frame { s0 with acc := some { a0 with conns := [] } }).2.2.2.2.2.2.1
+    rw [ha'] at this
+    simp at this
+    rw [this] at hc; cases hc
+  · exact hv
+
+theorem tcons_accCheckQueue (n : NetSt) (now : Int) (name : String) (hv : AccConnsOk n name) :
+    TCons n (n.accCheckQueue now name).1 (n.accCheckQueue now name).2 [] := by
+  rw [accCheckQueue_eq]
+  cases hs : n.tcp? name with
+  | none => exact TCons.refl n
+  | some s0 =>
+    dsimp only
+    cases ha : s0.acc with
+    | none => exact TCons.refl n
+    | some a0 =>
+      dsimp only
+      exact ((tcons_accResetClosed n name s0 a0 hs ha).trans
+        (tcons_accTryAccept _ now name (accResetClosed_ok n name s0 a0 hs ha hv))).congr rfl rfl
+
+theorem ni_accCheckQueue (n : NetSt) (now : Int) (name : String) : noInvoke (n.accCheckQueue now name).2 := by
+  rw [accCheckQueue_eq]
+  splits <;> simp [ni_accResetClosed, ni_accTryAccept]
+
+/-- `close()` keeps every object in the table and its accept state -/
+theorem tcpClose_acc (n : NetSt) (now : Int) (name : String) (b : String) (t : TcpSock) (hb : n.tcp? b = some t) :
+    ∃ t', (n.tcpClose now name).1.tcp? b = some t' ∧ t'.acc = t.acc := by
+  rw [tcpClose_eq]
+  cases hs : n.tcp? name with
+  | none => exact ⟨t, hb, rfl⟩
+  | some s0 =>
+    dsimp only
+    obtain ⟨t1, ht1, _, _, _, _, a5, _⟩ := tcpCloseEof_slots n now name s0 hs b t hb
+    by_cases hbn : b = name
+    · subst hbn
+      obtain ⟨_, s', hs', _, _, _, _, a, _⟩ := tcpCloseFin_some _ b (tcpCloseEof n now b s0).2 t1 ht1
+      exact ⟨s', hs', by rw [a, a5]⟩
+    · refine ⟨t1, ?_, a5⟩
+      unfold tcpCloseFin
+      split
+      · exact ht1
+      · dsimp only
+        rw [setTcp_tcp_other _ _ _ _ hbn]
+        unfold NetSt.tcp? at ht1 ⊢
+        splits <;> exact ht1
+
+/-! ### acceptor entry points -/
+
+theorem tcons_accIncoming (n : NetSt) (now : Int) (name : String) (p : Pkt) (hv : AccConnsOk n name)
+    (hp : ∀ c, p.chan = some c → c < n.chans.length) :
+    TCons n (n.accIncoming now name p).1 (n.accIncoming now name p).2 [] := by
+  unfold NetSt.accIncoming
+  split
+  · rename_i s c hs hty hch
+    split
+    · rename_i a ha
+      refine TCons.setTcp_then hs (tcons_accCheckQueue _ now name ?_) rfl rfl rfl rfl
+        (by unfold TcpSock.acceptOp; simp [ha])
+      intro s' a' hs' ha' x hx
+      rw [setTcp_tcp_same] at hs'; cases hs'
+      simp only [Option.some.injEq] at ha'; subst ha'
+      simp only [List.mem_append, List.mem_singleton] at hx
+      rcases hx with hx | hx
+      · exact hv s a hs ha x hx
+      · subst hx; exact hp x hch
+    · exact TCons.refl n
+  · rename_i s hs hty
+    dsimp only
+    refine TCons.setTcp_present hs (fun hx => ⟨by simpa using tcp_conserve_abortAccept s, ?_⟩)
+    obtain ⟨_, h1, h2, _⟩ := tcp_abortAccept_slots s
+    unfold TcpSock.recvExcl at *; rw [h1, h2]; exact hx
+  · exact TCons.refl n
+
+theorem ni_accIncoming (n : NetSt) (now : Int) (name : String) (p : Pkt) : noInvoke (n.accIncoming now name p).2 := by
+  unfold NetSt.accIncoming
+  split
+  · split <;> simp [ni_accCheckQueue]
+  · dsimp only; exact ni_tcp_abortAccept _
+  · simp
+
+/-- phase 0 of `async_accept`: close the peer socket / create the socket to be returned -/
+def _root_.SimVerif.accAcceptPrep (n : NetSt) (now : Int) (name : String) (op : AcceptOp) : NetSt × List NEff :=
+  match op with
+  | .into _ peer _ =>
+    (match n.tcp? peer with
+     | some p => if p.isOpen then n.tcpClose now peer else (n, [])
+     | none => (n, []))
+  | .fresh _ nn =>
+    (match n.tcp? name with
+     | some s => (n.setTcp nn { node := s.node }, [])
+     | none => (n, []))
+
+theorem accAsyncAccept_eq (n : NetSt) (now : Int) (name : String) (op : AcceptOp) :
+    n.accAsyncAccept now name op =
+      match (accAcceptPrep n now name op).1.tcp? name with
+      | none => ((accAcceptPrep n now name op).1, (accAcceptPrep n now name op).2)
+      | some s =>
+        match s.abortAccept.1.acc with
+        | none => ((accAcceptPrep n now name op).1, (accAcceptPrep n now name op).2 ++ s.abortAccept.2)
+        | some a =>
+          ((((accAcceptPrep n now name op).1.setTcp name
+              { s.abortAccept.1 with acc := some { a with acceptOp := some op } }).accCheckQueue now name).1,
+            (accAcceptPrep n now name op).2 ++ s.abortAccept.2 ++
+            (((accAcceptPrep n now name op).1.setTcp name
+              { s.abortAccept.1 with acc := some { a with acceptOp := some op } }).accCheckQueue now name).2) := by
+  unfold NetSt.accAsyncAccept accAcceptPrep
+  rfl
 
 end HL
 
